@@ -32,6 +32,63 @@ def frame_of(api, message):
     return bytes(eh.header_bytes), bytes(mb), bytes(crc), hdr
 
 
+def timer_record(gen, ac, payload):
+    """-> (on, off) of AC `ac` in a timer control payload as text ("disabled" | "hh:mm"), or an error string"""
+    if gen == 4:
+        if len(payload) < 8 * (ac + 1):
+            return "the timer control message has no record for AC %d" % ac
+        rec = payload[8 * ac:8 * ac + 4]
+    else:
+        if len(payload) < 8 or payload[0] != 0x32:
+            return "not an AC timer control message"
+        rl = payload[4] << 8 | payload[5]
+        recs = [payload[8 + i * rl:8 + (i + 1) * rl] for i in range(payload[6] << 8 | payload[7])]
+        mine = [r for r in recs if r and r[0] == ac]
+        if len(mine) != 1:
+            return "%d records for AC %d" % (len(mine), ac)
+        rec = mine[0][1:5]
+
+    def show(b):
+        return "disabled" if b[0] & 0x80 else "%02d:%02d" % (b[0] & 0x1F, b[1] & 0x3F)
+    return show(rec[0:2]), show(rec[2:4])
+
+
+def timer_meaning(gen, ac, method, args, payload, reported):
+    """AC timer control (0x36 / 0xC0 0x32; layout reverse-engineered upstream, as in consolesim: per timer `0x80 if disabled | hour, minute`,
+    ON timer first): the requested timer must carry the requested time (or be disabled for clear), the OTHER timer exactly what the
+    console last reported.  -> None or what is wrong"""
+    if reported is None:
+        return None
+    if gen == 4:
+        if len(payload) < 8 * (ac + 1):
+            return "the timer control message has no record for AC %d" % ac
+        rec = payload[8 * ac:8 * ac + 4]
+    else:
+        if len(payload) < 8 or payload[0] != 0x32:
+            return "not an AC timer control message"
+        rl = payload[4] << 8 | payload[5]
+        recs = [payload[8 + i * rl:8 + (i + 1) * rl] for i in range(payload[6] << 8 | payload[7])]
+        mine = [r for r in recs if r and r[0] == ac]
+        if len(mine) != 1:
+            return "%d records for AC %d" % (len(mine), ac)
+        rec = mine[0][1:5]
+
+    def show(b):
+        return "disabled" if b[0] & 0x80 else "%02d:%02d" % (b[0] & 0x1F, b[1] & 0x3F)
+
+    def want(t):
+        return "disabled" if t is None else "%02d:%02d" % t
+    on, off = rec[0:2], rec[2:4]
+    which = args[0]
+    req, other, other_rep = (on, off, reported[1]) if which == "ON_TIMER" else (off, on, reported[0])
+    target = "disabled" if method == "clear_quick_timer" else "%02d:%02d" % (int(args[2]), int(args[3]))
+    if show(req) != target:
+        return "the %s is sent as %s, requested %s" % (which, show(req), target)
+    if show(other) != want(other_rep):
+        return "the other timer is sent as %s although the console last reported it as %s (it must be kept)" % (show(other), want(other_rep))
+    return None
+
+
 def limits(gen, ac):
     """[min, max] in force, from the installation description: AT4 one pair; AT5 the pair of the current mode"""
     if gen == 4:
@@ -141,6 +198,8 @@ def run(ctx, deep=False):
                     calls.append(("ac", ac["id"], "set_target_temperature", [repr(t)], st))
                 for tt in A.AcTimerType:
                     calls.append(("ac", ac["id"], "set_quick_timer", [tt.name, "duration", "5400"], st))
+                    for (h, m) in ((6, 30), (23, 59), (0, 0)):
+                        calls.append(("ac", ac["id"], "set_quick_timer", [tt.name, "time", str(h), str(m)], st))
                     calls.append(("ac", ac["id"], "clear_quick_timer", [tt.name], st))
             first = True
             for z in sorted(inst["zones"]):
@@ -155,6 +214,12 @@ def run(ctx, deep=False):
                 first = False
             calls.append(("at", 0, "check_for_updates", [], {}))
             ops = consolesim.handshake(gen, inst)
+            # the console reports quick timers that differ per AC and between ON and OFF, so "the other timer is kept" is visible
+            reported = {ac["id"]: ((7 + k, 5 + ac["id"]), None if k % 2 else (21, 40 + k)) for k, ac in enumerate(inst["acs"])}
+            if gen == 4:
+                ops.append(consolesim.at4_timer_status({a: t for a, t in reported.items() if a < 4}))
+            else:
+                ops.append(consolesim.at5_timer_status([(a, on, off) for a, (on, off) in sorted(reported.items())]))
             base = len(ops)
             for (target, ident, method, args, st) in calls:
                 ops.append(("call at check_for_updates" if target == "at" else "call %s %d %s %s" % (target, ident, method, " ".join(args))).strip())
@@ -181,6 +246,12 @@ def run(ctx, deep=False):
                 except Exception as e:  # noqa: BLE001  (unencodable: the socket logs it and nothing reaches the wire)
                     ctx.count("%d:%s.%s:unencodable:%s" % (gen, target, method, type(e).__name__))
                     continue
+                if "quick_timer" in method and not (len(args) > 1 and args[1] == "duration"):
+                    why_t = timer_meaning(gen, ident, method, args, mb, reported.get(ident))
+                    if why_t:
+                        key = "C04:%d:ac.%s" % (gen, method)
+                        ctx.violation(key, "AirTouch %d ac %d %s(%s): %s (frame %s)" % (gen, ident, method, ", ".join(args), why_t, (hb + mb + crc).hex()),
+                                      kind="input", call=[gen, ci, target, ident, method, args], implementation_output=(hb + mb + crc).hex(), spec_verdict=why_t)
                 if target == "at" or "quick_timer" in method:
                     kind, exp, ch = None, {}, set()
                 else:
